@@ -1,7 +1,7 @@
 (* otto's own conversion code (value_number.go, evaluate.go) where it is more
    than the ES5 clause: the math.Mod / int64 route of toInt32/toUint32/toUint16,
-   parseNumber's dispatch onto Go's strconv grammars, string comparison on
-   UTF-8 bytes. *)
+   parseNumber's dispatch onto Go's strconv grammars, the string case of
+   calculateLessThan. *)
 From Coq Require Import ZArith Bool List Lia.
 From Otto Require Import Common.Double Common.Corr C05.Fp C05.Spec.
 Import ListNotations.
@@ -229,29 +229,21 @@ Definition parse_number (s : list Z) : Z :=
       match r with Some b => b | None => nan_bits end
   end.
 
-(* ---------- string comparison: Go's < on UTF-8 strings ---------- *)
+(* ---------- evaluate.go calculateLessThan, string case (since commit b6ed2ef) ---------- *)
 
-(* UTF-16 units to code points (a lone surrogate stays as it is) *)
-Fixpoint code_points (l : list Z) : list Z :=
-  match l with
-  | [] => []
-  | h :: l' =>
-      if (0xD800 <=? h) && (h <=? 0xDBFF) then
-        match l' with
-        | lo :: l'' => if (0xDC00 <=? lo) && (lo <=? 0xDFFF)
-                       then (0x10000 + (h - 0xD800) * 1024 + (lo - 0xDC00)) :: code_points l''
-                       else h :: code_points l'
-        | [] => [h]
-        end
-      else h :: code_points l'
+(* x, y := utf16.Encode([]rune(x.string())), ...: the code units of the two strings (otto's Go
+   strings hold no lone surrogates, so the round trip through runes is the identity on units);
+   index := 0; for index < len(x) && index < len(y) && x[index] == y[index] { index++ } *)
+Fixpoint skip_common (x y : list Z) : list Z * list Z :=
+  match x, y with
+  | a :: x', b :: y' => if a =? b then skip_common x' y' else (x, y)
+  | _, _ => (x, y)
   end.
 
-Definition utf8_of_cp (c : Z) : list Z :=
-  if c <? 0x80 then [c]
-  else if c <? 0x800 then [0xC0 + c / 64; 0x80 + c mod 64]
-  else if c <? 0x10000 then [0xE0 + c / 4096; 0x80 + (c / 64) mod 64; 0x80 + c mod 64]
-  else [0xF0 + c / 262144; 0x80 + (c / 4096) mod 64; 0x80 + (c / 64) mod 64; 0x80 + c mod 64].
-
-Definition utf8 (cps : list Z) : list Z := flat_map utf8_of_cp cps.
-
-Definition m_str_lt (a b : list Z) : bool := units_lt (utf8 (code_points a)) (utf8 (code_points b)).
+(* result = index < len(y) && (index == len(x) || x[index] < y[index]) *)
+Definition m_str_lt (x y : list Z) : bool :=
+  let '(rx, ry) := skip_common x y in
+  match ry with
+  | [] => false
+  | b :: _ => match rx with [] => true | a :: _ => a <? b end
+  end.
